@@ -19,6 +19,10 @@ def obligations(tier):
     for tf in tfs:
         obs.append(Ob(f"manager/{tf}/n={n}", dict(tf=tf, n=n, via="manager"), CFG, weight=n * 10, budget_s=600 if tier == "quick" else 7200, max_paths=200000))
         obs.append(Ob(f"indicator+hexital/{tf}/n={n - 1}", dict(tf=tf, n=n - 1, via="api"), CFG, weight=n * 5, budget_s=600 if tier == "quick" else 7200, max_paths=200000))
+    # timezone-aware timestamps: three feeds of the same instants stamped in UTC, UTC+02:00 and UTC+05:30, collapsed one after
+    # the other in the same process - each on ITS OWN wall clock (buckets are counted from midnight of the stamp's zone)
+    for tf in (("H1", "H4", "D1") if tier == "quick" else ("T45", "H1", "H4", "H5", "D1", "D2")):
+        obs.append(Ob(f"aware-timestamps/{tf}/three zones in one process", dict(tf=tf, n=6), CFG, fn="run_aware", weight=20, budget_s=600))
     return obs
 
 
@@ -27,6 +31,39 @@ def check_against_ref(ctx, label, candles, ref):
     if not ctx.require(f"{label}:bucket-count", len(got) == len(ref), f"library has {len(got)} collapsed candles, reference {len(ref)}"):
         return
     ctx.equal(f"{label}:buckets==reference", got, ref_view(ref))
+
+
+def run_aware(ctx, P):
+    from datetime import datetime, timedelta, timezone
+    _, _, Candle, CandleManager, Hexital = lib()
+    tf, n = P["tf"], P["n"]
+    tfs = tf_secs(tf)
+    vals = [sym_ohlcv(ctx, i) for i in range(n)]
+    # the same instants for every feed: an irregular grid that straddles several bucket edges of every zone
+    step = max(tfs // 3, 60)
+    t0 = datetime(2024, 3, 4, 21, 10, tzinfo=timezone.utc)
+    instants = [t0 + timedelta(seconds=step * k + (7 * k * k) % step) for k in range(n)]
+    for zname, zone in (("UTC", timezone.utc), ("UTC+02:00", timezone(timedelta(hours=2))), ("UTC+05:30", timezone(timedelta(hours=5, minutes=30))), ("UTC again", timezone.utc)):
+        stamps = [t.astimezone(zone) for t in instants]
+        wall = [int((t.replace(tzinfo=None) - datetime(1970, 1, 1)).total_seconds()) for t in stamps]
+        cs = [Candle(o, h, l, c, v, timestamp=t) for (o, h, l, c, v), t in zip(vals, stamps)]
+        ref = ref_resample(ctx, cs, wall, tfs)
+        view = lambda lst: [dict(ts=int((c.timestamp.replace(tzinfo=None) - datetime(1970, 1, 1)).total_seconds()), zone=str(c.timestamp.tzinfo), open=c.open, high=c.high, low=c.low, close=c.close, volume=c.volume) for c in lst]
+        exp = [dict(ts=b["ts"], zone=str(zone), open=b["open"], high=b["high"], low=b["low"], close=b["close"], volume=b["volume"]) for b in ref]
+        m = CandleManager(clone(cs), timeframe=tf)
+        if zname == "UTC":
+            ctx.observe("collapsed", view(m.candles))
+        ctx.equal(f"{zname}: construction: buckets==reference on the feed's own wall clock", view(m.candles), exp)
+        m2 = CandleManager([], timeframe=tf)
+        src = clone(cs)
+        m2.append(src[:2])
+        for c in src[2:]:
+            m2.append(c)
+        ctx.equal(f"{zname}: appended: buckets==reference on the feed's own wall clock", view(m2.candles), exp)
+        hx = Hexital("h", [], [build("EMA", dict(period=2), timeframe=tf)])
+        for c in clone(cs):
+            hx.append(c)
+        ctx.equal(f"{zname}: Hexital.candles(tf)==reference on the feed's own wall clock", view(hx.candles(tf)), exp)
 
 
 def run(ctx, P):
